@@ -257,15 +257,15 @@ pub const SEP_KEY: u32 = u32::MAX;
 pub fn run_e4(spec: &ShardSpec, cur: Option<&str>) -> Outcome {
     let t0 = std::time::Instant::now();
     let mut out = Outcome::default();
-    let mut curf = CurFile::new(cur);
     let cfg = spec.cfg();
     let cap: usize = spec.extra.get("fam").and_then(|s| s.parse().ok()).unwrap_or(100);
     let part: usize = spec.extra.get("part").and_then(|s| s.parse().ok()).unwrap_or(0);
     let parts: usize = spec.extra.get("parts").and_then(|s| s.parse().ok()).unwrap_or(1);
     let per_op_cont = spec.extra.get("per_op_cont").map_or(false, |s| s == "1");
     let fam_alpha = spec.extra.get("fam_alpha").cloned().unwrap_or_else(|| "mut1+ch0+shape".to_string());
-    let fam = build_family::<W>(&cfg, &fam_alpha, spec.n, cap, &mut out);
+    let fam = build_family::<W>(&cfg, &fam_alpha, spec.n, cap, &mut out, cur);
     out.layers.push((fam.len() as u64, 0));
+    let mut curf = CurFile::new(cur);
     let alpha = alpha::by_name(&spec.alpha);
     let mut sigs: HashSet<String> = HashSet::new();
     let mut seen: HashSet<u128> = HashSet::new();
